@@ -358,14 +358,16 @@ def c2mEvalG (fx : Fixes) : Expr → Res
       else c2mCondConv fx (c2mStaticUns fx a) (c2mEvalG fx b)
     | r => r
 
-/-- THE SWITCH: the set of `fixes/C09-if-*.patch` repairs present in the checked tree.
-The correspondence check (`checks/c09.py`) compares the real `c2m` with `c2mEvalG appliedFixes`
-on every generated expression and reports a broken tie if they differ, naming the value of
-`appliedFixes` that explains the real code. -/
-def appliedFixes : Fixes := noFixes
+/-- THE SWITCH: the set of `#if` repairs present in the checked tree.  All six are in /repo since
+deaac458.  The correspondence check (`checks/c09.py`) compares the real `c2m` with
+`c2mEvalG appliedFixes` on every generated expression and reports a broken tie if they differ. -/
+def appliedFixes : Fixes := allFixes
 
 /-- model of `eval` of the checked tree -/
 def c2mEval (e : Expr) : Res := c2mEvalG appliedFixes e
+
+/-- OLD VARIANT: model of `eval` as it was before /repo deaac458 (no repair) -/
+abbrev c2mEvalOld (e : Expr) : Res := c2mEvalG noFixes e
 
 /-! ## Side condition under which a (partially repaired) evaluator is right -/
 
